@@ -8,6 +8,7 @@ import BlockCiphers.Impl.Cast6
 import BlockCiphers.Impl.Des
 import BlockCiphers.Impl.Gift
 import BlockCiphers.Impl.Idea
+import BlockCiphers.Impl.Kuznyechik
 import BlockCiphers.Impl.Magma
 import BlockCiphers.Impl.Rc2
 import BlockCiphers.Impl.Serpent
@@ -113,6 +114,9 @@ theorem twofish_QBOX_eq : twofish_QBOX.toList =
     ((BC.Twofish.QBOX.toList.map (fun q => (q.toList.map nats8).flatten))).flatten := by decide +kernel
 theorem twofish_RS_eq : twofish_RS.toList = (BC.Twofish.RS.toList.map nats8).flatten := by decide +kernel
 theorem twofish_MDS_POLY_eq : twofish_MDS_POLY = BC.Twofish.MDS_POLY.toNat := by decide +kernel
+
+-- Kuznyechik (π; P_INV, GFT_*, KEYGEN and the fused tables are computed by the model of their const fns) ------
+theorem kuznyechik_P_eq : kuznyechik_P.toList = nats8 BC.Kuznyechik.P.toArray := by decide +kernel
 
 -- Magma / GOST 28147-89 S-box sets ----------------------------------------------------------------
 def sboxNats (s : BC.Magma.SmallSbox) : List Nat := (s.toList.map (fun r => r.toList.map BitVec.toNat)).flatten
